@@ -120,6 +120,10 @@ func (m *UnsubscribeMessage) Decode(src []byte) (int, error) {
 		return total, err
 	}
 
+	if len(src[total:]) < 2 {
+		return total, fmt.Errorf("unsubscribe/Decode: Insufficient buffer size. Expecting %d, got %d", 2, len(src[total:]))
+	}
+
 	//this.packetId = binary.BigEndian.Uint16(src[total:])
 	m.packetID = src[total : total+2]
 	total += 2
